@@ -66,18 +66,8 @@ func execMultiplicativeExprDivide(context *exprContext, expr *grammar.Grammar) e
 		return err
 	}
 
-	if right == 0 {
-		if left == 0 {
-			context.result = Number(math.NaN())
-		} else if left > 0 {
-			context.result = Number(math.Inf(1))
-		} else {
-			context.result = Number(math.Inf(-1))
-		}
-
-		return nil
-	}
-
+	// IEEE 754 division: a zero divisor gives NaN or an infinity whose sign
+	// depends on the signs of both operands (1 div -0 is -Infinity).
 	context.result = Number(left / right)
 	return nil
 }
